@@ -14,18 +14,18 @@ TEXT = {
  "C09": ("model_checking", "failure atomicity / clean success: C09_Atomic, C09_Clean on the bounded model; recorded executions with every kind of invalid call validated (state unchanged, error set, message non-empty), failing opens, error table", "MC_rw invariants C09_* + TraceCore validation"),
  "C07": ("model_checking", "byte identity of files written from the same samples under different partitions / call variants / header updates / processes, decided by TLC (SameBytesOK, CanonOK in TraceCore) over every writable format", "TraceCore digest clauses + MC_rw"),
  "C11": ("model_checking", "crash images (copy of the backing store after every header update) opened by a second handle and validated by TLC against the writer's model state: parameters, whole-block frame count, prefix data; finished file identical to a twin without updates", "TraceCore (FileEffect/OpenWrittenOK image clauses)"),
- "C19": ("model_checking", "per-handle model states in TraceCore: interleaved multi-handle executions are explained only if every handle behaves as if alone; solo re-runs must give byte identical files; concurrent readers share the content map", "TraceCore multi-handle validation"),
+ "C19": ("model_checking", "per-handle model states in TraceCore: interleaved multi-handle executions are explained only if every handle behaves as if alone; solo re-runs must give byte identical files; concurrent readers share the content map; foreign (mutated) files and setter commands on other handles as the 'earlier library use'", "TraceCore multi-handle validation"),
  "C14": ("model_checking", "route independence: same content through vio/fd/path/embedded/pipe validated against one content map; byte identity across write routes; descriptor closed iff close_desc (CloseOK)", "TraceCore validation across routes"),
- "C15": ("model_checking", "complete enumeration of fault points x kinds x persistence for representative workloads, each execution validated by TLC with the widened (relax) outcome sets of SfHandle; watchdog for non-returning calls; ledger at scenario end", "fault enumeration + TraceCore (relax clauses)"),
- "C16": ("model_checking", "ledger clauses EndOK / OpenFailedOK evaluated by TLC on every scenario: heap (ASan allocator statistics), descriptors, temp files; dedicated sweep of opens failing at each parse depth", "TraceCore ledger clauses"),
- "C02": ("model_checking", "the conversion rules as exact arithmetic in TLA+ (SfConv: MSB rule, offset 128, value/2^(w-1), nearest integer to x*(2^(w-1)-1) with the float-precision product, saturation) evaluated by TLC on recorded (input, output) pairs: all 65536 shorts and all 8/16 bit codes exhaustively, sampled 24/32 bit codes, the full 8/16 bit float target grids; identities model-checked in MC_conv", "TraceConv (SfConv rules) + MC_conv"),
+ "C15": ("model_checking", "complete enumeration of fault points x kinds x persistence for representative workloads, each execution validated by TLC with the widened (relax) outcome sets of SfHandle; faults count only once they changed a callback's answer (strict clauses before; absorbed single-shot seek faults return to them); stream growth under transfer faults (StreamLenOK); real OS errors on the descriptor route (fdclose); watchdog for non-returning calls; ledger at scenario end", "fault enumeration + TraceCore (relax clauses)"),
+ "C16": ("model_checking", "ledger clauses EndOK / OpenFailedOK evaluated by TLC on every scenario: heap (ASan allocator statistics), descriptors, temp files; dedicated sweeps of opens failing at each parse depth (truncations, systematic header-field mutations, SD2 resource forks), writers under persistent transfer faults", "TraceCore ledger clauses"),
+ "C02": ("model_checking", "the conversion rules as exact arithmetic in TLA+ (SfConv: MSB rule, offset 128, value/2^(w-1), nearest integer to x*(2^(w-1)-1) with the float-precision product, saturation) evaluated by TLC on recorded (input, output) pairs: all 65536 shorts and all 8/16 bit codes exhaustively, sampled 24/32 bit codes, the full 8/16 bit float target grids, 24/32 bit float targets (ScaleWide), G.711 targets; identities model-checked in MC_conv; in TraceCore: agreement of the four caller types on every integer-coded encoding of every container (XTypeOK) and float data read through the integer types (FloatToIntOK)", "TraceConv (SfConv rules) + MC_conv"),
  "C03": ("model_checking", "structure-aware mutation of valid files of every format, each execution validated by TLC in the hostile class of TraceCore (NULL+error or sane SF_INFO; counts, positions, guard bands; every call returns; ledger), memory errors observed by ASan; sampling of the input space, not a proof about the parsers", "mutation corpus + TraceCore hostile-class validation"),
  "C10": ("model_checking", "the agreement predicate Consistent (sf_format_check = sf_open(SFM_WRITE) outcome, accepted tuples write through 4 types, close, re-open as the same format; rejected ones fail with an error) and the enumeration soundness clauses evaluated by TLC on the complete grid (thorough) / a sub-grid reaching every rule (quick)", "TraceFormat over the complete format grid"),
  "C12": ("model_checking", "Get(Reopen(Set v)) = Norm(v) decided by TLC (GetMetaOK: support matrix, software suffix, CR/LF normalisation, appended history line, per-container representable fields) for strings, bext, cart, cues, instrument, channel map over lengths up to the limits and several orders", "TraceCore metadata clauses"),
  "C13": ("model_checking", "chunk table model (MC_chunks: used <= capacity through every growth step, iterator visits once) and trace validation of set/iterate/get on WAV, WAVEX, RF64, AIFF, CAF with counts crossing every capacity step; hook reports used/capacity; guard bands and ASan", "MC_chunks + TraceCore chunk clauses"),
- "C17": ("model_checking", "TraceCmd: for every command id x datasize x {NULL, exact-size block fenced by a PROT_NONE page} x handle state: no access outside the block, defined return, NUL termination, queries are stuttering steps on the complete hook snapshot and backing store", "TraceCmd over the command grid"),
+ "C17": ("model_checking", "TraceCmd: for every command id x datasize x {NULL, exact-size block fenced by a PROT_NONE page} x handle state: no access outside the block, defined return, NUL termination, queries are stuttering steps on the complete hook snapshot, the backing store and a fingerprint of all metadata the public getters show", "TraceCmd over the command grid"),
  "C18": ("model_checking", "true maxima computed by TLC from the content the model holds (exact dyadics on the k/1024 grid / integer codes) and compared with PEAK values and positions, SFC_GET_* after re-open and SFC_CALC_* results; position and normalisation unchanged", "TraceCore C18 clauses (CalcValsOK, PeakQOK)"),
- "C20": ("model_checking", "G.711 written in TLA+ from the Recommendation (SfG711) compared with the library on all 256 codes and all 65536 inputs through every sample type; portable IEEE serialisers against the native bit pattern on stratified patterns; byte order of integers; identities of the definitions model-checked (MC_conv). ADPCM reference decoders are not part of this version", "TraceConv (SfG711) + MC_conv"),
+ "C20": ("model_checking", "G.711 written in TLA+ from the Recommendation (SfG711) compared with the library on all 256 codes and all 65536 inputs through every sample type; portable IEEE serialisers against the native bit pattern on stratified patterns; byte order of integers; identities of the definitions model-checked (MC_conv). IMA (WAV/W64 and AIFF layouts) and MS ADPCM reference decoders in TLA+ (SfAdpcm) compared with the library on random, extreme and hostile-header block bytes (TraceAdpcm)", "TraceConv (SfG711) + MC_conv"),
 }
 NOTE = "trusted: TLC, the driver's faithful reporting (harness/sfdrive.c), the hook sf_verif_snapshot (read-only copy of handle fields), clang ASan; bounded inputs as listed in the evidence file"
 
